@@ -17,6 +17,9 @@ import (
 // switch it on; they keep evaluating the direct clauses on such data.
 var genExactCostTies = false
 
+// genForceTies: the next generated dataset carries exact ties for about half of its costs (set around one call)
+var genForceTies = false
+
 // genDataset writes a generated catchment dataset (meta file + three tables) into dir and returns
 // the meta file's path.  It is loaded by crem's real CSV loader.
 func genDataset(r *Rng, dir string, tag string) string {
@@ -60,7 +63,8 @@ func genDataset(r *Rng, dir string, tag string) string {
 	// costs: crem rounds every action's cost to cents (RoundFloat(cost, 2)) before it adds it.  Whole dollars and cents
 	// (the rounding is the identity), 3-6 decimals (it is not), values a 1e-6 .. 1e-4 either side of a tie x.xx5
 	// (decidable at float precision), with genExactCostTies the tie itself; negative in adverse data sets.
-	ties := genExactCostTies && r.Chance(0.12)
+	ties := genExactCostTies && (genForceTies || r.Chance(0.12))
+	forced := genExactCostTies && genForceTies
 	if ties {
 		tag += "tie_"
 	}
@@ -71,6 +75,9 @@ func genDataset(r *Rng, dir string, tag string) string {
 		}
 		var v float64
 		k := r.Intn(20)
+		if forced && k%2 == 0 {
+			k = 19 // an exact tie x.xx5
+		}
 		switch {
 		case k < 5:
 			v = round(x, 0)
